@@ -57,6 +57,7 @@ func NormalizeCode(c Code) Code {
 	code = strings.TrimSpace(code)
 	code = codeSeparatorRegexp.ReplaceAllString(code, "$1")
 	code = codeInvalidCharsRegexp.ReplaceAllString(code, "")
+	code = strings.TrimSpace(code) // removing symbols may leave spaces at either end
 	return Code(code)
 }
 
